@@ -83,8 +83,9 @@ def main(tier):
     table_part(rep, bd, thorough)
     # direction B: recorded executions validated by TLC against the reference semantics (MC_RegTrace.tla)
     import random
-    _db, posc = regtrace.posc_history()
-    regtrace.validate(rep, bd, posc, "registration history of the shipped POSC database (AddUnitBase / AddUnit / AddCategory calls)", "posc")
+    for which in ("default", "posc_nocat", "simple"):
+        _db, posc = regtrace.posc_history(which)
+        regtrace.validate(rep, bd, posc, "registration history of the shipped database '%s' (AddUnitBase / AddUnit / AddCategory calls)" % which, "hist-" + which)
     rng = random.Random(common.seed() + 14)
     hist = regtrace.random_histories(rng, 2000 if thorough else 400, 60 if thorough else 40, queries=False)
     regtrace.validate(rep, bd, hist, "seeded deep registration histories with the projected registry after every call", "deep")
